@@ -171,7 +171,7 @@ PROPS["C17"] = {
     "assumptions": ["sequential histories; concurrent creates are covered by the schedule harness where built"],
 }
 
-PROPS["C16"]["components"].append(Sched("tc", 3000, 150000, exhaustive_limit=3000))
+PROPS["C16"]["components"].append(Sched("tc", 3000, 150000, exhaustive_limit=3000, conformance="tr-tc"))
 PROPS["C16"]["rule"] += " tc (schedules): 2-4 concurrent Check callers with timestamps inside one sleep period (bound: at most max(1,budget) successes) or all before nextOpen (bound: none), a timer thread firing armed callbacks at arbitrary moments, optionally a racing SleepStart; every atomic and lock operation is a scheduling point."
 PROPS["C16"]["trusted_base"] = PROPS["C16"]["trusted_base"] + TB_SCHED
 PROPS["C03"]["components"].append(Sched("tc", 1500, 60000, label="sched-tc-gate"))
